@@ -7,6 +7,7 @@ import (
 	"sync"
 
 	"github.com/tidwall/btree"
+	"github.com/tidwall/buntdb"
 	"github.com/tidwall/resp"
 	"github.com/tidwall/rtree"
 	"github.com/tidwall/tile38/internal/collection"
@@ -35,6 +36,10 @@ func vhServer() *Server {
 	s.config = &Config{}
 	s.pubq = pubQueue{cond: sync.NewCond(&sync.Mutex{})}
 	s.monconns = make(map[net.Conn]bool)
+	s.pubsub = newPubsub()
+	// webhook queue: the real buntdb, in memory
+	s.qdb, _ = buntdb.Open(":memory:")
+	s.qdb.CreateIndex("hooks", hookLogPrefix+"*", buntdb.IndexJSONCaseSensitive("hook"))
 	return s
 }
 
@@ -48,3 +53,24 @@ func vhDoJSON(s *Server, args ...string) (resp.Value, commandDetails, error) {
 	msg := &Message{Args: args, ConnType: RESP, OutputType: JSON}
 	return s.command(msg, nil)
 }
+
+// bsonID mixes the process id, host name and a random counter start into object ids (all read in
+// package initialisers from the OS). The engine and the replay use a deterministic counter instead.
+//verif:replace github.com/tidwall/tile38/internal/server.bsonID => vmBsonID
+
+var vmBsonCounter int
+
+func vmBsonID() string {
+	vmBsonCounter++
+	const hexd = "0123456789abcdef"
+	b := []byte("0000000000000000000000000")[:24]
+	n := vmBsonCounter
+	for i := 23; i >= 16; i-- {
+		b[i] = hexd[n&15]
+		n >>= 4
+	}
+	return string(b)
+}
+
+// the configuration file is not part of any harness
+//verif:noop (*github.com/tidwall/tile38/internal/server.Config).write
